@@ -160,7 +160,18 @@ def r2_fold(ctx, RULE='R2.mux'):
         ok = [ast.unparse(a) for a in sc[0].args] == [dm.params[0], sel]
     ctx.check(RULE, f'{site(dm)} demux', ok, key(dm, 'demux'),
               'demux does not select, from the input spectrum, the channels that is_in_band(frequency, slot_width, band) keeps')
-    ctx.need(RULE, 5)
+    if ok:
+        # is_in_band over the full arrays is the ONLY membership decision: every exit that hands back a spectrum comes after it
+        g = CFG(dm.node)
+        sel_node = g.node_of(stmt_of(dm, ib[0]))
+        rets = [n for n in walk_no_nested(dm.node) if isinstance(n, ast.Return) and n.value is not None and
+                not (isinstance(n.value, ast.Constant) and n.value.value is None)]
+        early = [n for n in rets if not g.dominates(sel_node, g.node_of(n))]
+        ctx.check(RULE, f'{site(dm)} no shortcut around the in-band test', bool(rets) and not early, key(dm, 'demux-shortcut'),
+                  'demux can return a spectrum without having applied is_in_band to every channel (a shortcut decides membership on '
+                  'something else, e.g. the first / last carrier only): carriers whose slot crosses the band edge would survive',
+                  '; '.join(f'line {n.lineno}: {ast.unparse(n)[:60]}' for n in early))
+    ctx.need(RULE, 6)
 
 
 def r3_filter(ctx):
